@@ -260,6 +260,10 @@ def run(prog: Program, rep: Report, tier: str):
                     "a KDTransform subclass replaces worker_init_fn (re-seeding is implemented there; subclasses "
                     "customise _worker_init_fn)", clause="C09.3")
 
+    from .c07 import member_stability, set_rng_propagation
+    set_rng_propagation(prog, rep, own, fwd, clause="C09.3")  # ... and from there every member generator
+    member_stability(prog, rep, own, clause="C09.3")
+
     # ---- clause 4: collator composites -----------------------------------------------------------------------
     rep.rule("G3.collator-set_rng", "collator composites forward set_rng(<received generator>) to every member collator; "
              "single collators store it")
